@@ -59,7 +59,9 @@ var (
 	profNums   = []string{"0", "1", "1.0", "2", "2.5", "-1", "-1.5", "3", "3.0", "10", "1e1", "0.5", ".5", "100", " 4", "7 ", "-0.25", "12.75"}
 	profFloats = []string{"0.5", "1.5", "2.5", "-1.5", "3.25", "0.1", "10.75", "-0.25", "2.5", "1.5"}
 	profText   = []string{"a", "A", "b", "B ", " b", "abc", "ABC", "Abd", "x", "y", "Z", "zz", "apple", "Apple", "pear", "kiwi ", "", " ", "né", "NÉ", "a b", "a-b", "q1", "Q2", "it's", "say \"hi\"", "semi;colon", "com,ma"}
-	profDates  = []string{"2012-02-03", "2012/02/03", "2012-2-3", "2012-02-03 09:18:15", "2012-02-04", "2011-12-31", "2012-02-03T09:18:15Z", "2012-02-03 09:18:15.5", "2013-01-01 00:00:00", "2012-02-03 00:00:00", "1999-12-31 23:59:59"}
+	// integers that differ by less than one float64 step
+	profBigInts = []string{"9007199254740992", "9007199254740993", "9007199254740994", "9007199254740995", "9223372036854775807", "9223372036854775806", "9223372036854775805", "-9223372036854775808", "-9223372036854775807", "1500000000000000000", "1500000000000000001", "1500000000000000100", "3", "-1"}
+	profDates   = []string{"2012-02-03", "2012/02/03", "2012-2-3", "2012-02-03 09:18:15", "2012-02-04", "2011-12-31", "2012-02-03T09:18:15Z", "2012-02-03 09:18:15.5", "2013-01-01 00:00:00", "2012-02-03 00:00:00", "1999-12-31 23:59:59"}
 	// texts containing the separators csvq uses inside its comparison keys
 	profHostile = []string{"a:[S]b", "a", "b:[S]c", "c", ":", "[S]", "[N]", "[I]1", "[F]1", ":[S]x", "x", "a:", ":a", "a:[S]", "[S]b", "b", "a:[S]b:[S]c", "[D]1", "[B]true", "A:[s]B", "\\", "a\\:b", "[S]a:[S]b", "a:[N]", "[N]", "[N]:[S]a", "NULL", "null", ""}
 )
@@ -74,6 +76,8 @@ func profileVals(kind string) []string {
 	switch kind {
 	case "ints":
 		return profInts
+	case "bigints":
+		return profBigInts
 	case "nums":
 		return profNums
 	case "floats":
